@@ -1,16 +1,21 @@
 (** C17 — the verdict of [check_type_system_document] under a permutation of the definitions.
 
-    C05's model [K.check_doc] (coq/C05/Model.v, imported read-only) reads the document through four key
+    C05's model [check_doc] (coq/C05/Model.v, imported read-only) reads the document through four key
     lookups — [first_type] / [first_directive] (the first-wins [Schema]) and [last_type] / [last_directive]
-    (the last-wins [DefinitionMap] hash maps) — and through its length (fuel).  With unique type names and
-    unique directive names the lookups do not depend on the order of the definitions, hence
-        Permutation doc doc'  ->  Permutation (check_doc doc) (check_doc doc')
-    (the same diagnostics, with their positions and notes; only their order follows the definitions), in
-    particular the same pass/fail verdict and the same multiset of diagnostic kinds.
+    (the last-wins [DefinitionMap] hash maps) — through its length (fuel), and (since 451006c) walks the
+    definitions in order with the names of the non-built-in directive definitions seen so far, reporting a
+    second definition of a name ([DuplicatedName]).
 
-    The guard on directive names is necessary and NOT enforced by nitrogql: two definitions of one directive
-    name are accepted, [check_directives] uses the first, the recursion check the last — the verdict then
-    depends on the order ([check_doc_permutation_refuted], known finding `duplicate-directive-definition`). *)
+    * general form: for ANY permutation of a resolved document with unique type names and unique directive
+      names, [Permutation (check_doc doc) (check_doc doc')] — the same diagnostics up to their order;
+    * source form (what a reordering of schema files can produce: the user's definitions permuted, the built-in
+      definitions appended after them unchanged): the pass/fail VERDICT is the same with NO guard on directive
+      names — a directive the user defines twice is rejected in every order, a user directive that redefines a
+      built-in always precedes it; with distinct user directive names the diagnostics are again a permutation;
+    * the unguarded general form is still false of the MODEL ([check_doc_permutation_refuted]): a permutation
+      that moves a built-in-positioned definition across a user definition of the same name changes the
+      lookups.  This cannot happen in nitrogql: built-ins are appended after the merged user document
+      (cli/src/main.rs extend_loaded_schema) and permuting source definitions never moves them. *)
 From V Require Import Base.Util Gql.Ast C05.Model.
 From V Require C17.Proofs C17.Denot.
 From Coq Require Import Permutation.
@@ -322,7 +327,6 @@ Section Perm.
   Variables doc doc' : tsdoc.
   Hypothesis Hperm : Permutation doc doc'.
   Hypothesis HndT : NoDup (map tname (tdefs doc)).
-  Hypothesis HndD : NoDup (map dname (ddefs doc)).
 
   Lemma tdefs_perm : Permutation (tdefs doc) (tdefs doc').
   Proof. unfold tdefs. now apply Permutation_flat_map. Qed.
@@ -340,39 +344,146 @@ Section Perm.
     - eapply Permutation_NoDup; [apply Permutation_map, Permutation_rev|exact HndT].
   Qed.
 
-  Lemma first_directive_perm n : first_directive doc n = first_directive doc' n.
-  Proof. rewrite !first_directive_find. apply find_unique_perm; [apply ddefs_perm|exact HndD]. Qed.
+  Section UniqueDirectives.
+    Hypothesis HndD : NoDup (map dname (ddefs doc)).
 
-  Lemma last_directive_perm n : last_directive doc n = last_directive doc' n.
-  Proof.
-    rewrite !last_directive_find. apply find_unique_perm.
-    - eapply Permutation_trans; [apply Permutation_sym, Permutation_rev|].
-      eapply Permutation_trans; [apply ddefs_perm|apply Permutation_rev].
-    - eapply Permutation_NoDup; [apply Permutation_map, Permutation_rev|exact HndD].
-  Qed.
+    Lemma first_directive_perm n : first_directive doc n = first_directive doc' n.
+    Proof. rewrite !first_directive_find. apply find_unique_perm; [apply ddefs_perm|exact HndD]. Qed.
 
-  (** verdict(pi(P)) = verdict(P) for the schema check: the same diagnostics up to their order *)
-  Lemma check_doc_permutation : Permutation (check_doc doc) (check_doc doc').
-  Proof.
-    unfold check_doc.
-    rewrite (flat_map_ext (check_def doc') (check_def doc) (fun d => eq_sym
-      (check_def_eq doc doc' first_type_perm last_type_perm first_directive_perm last_directive_perm
-                    (Permutation_length Hperm) d))).
-    now apply Permutation_flat_map.
-  Qed.
-
-  Lemma check_doc_verdict_permutation : check_doc doc = [] <-> check_doc doc' = [].
-  Proof.
-    split; intros E.
-    - apply Permutation_nil. rewrite <- E. apply check_doc_permutation.
-    - apply Permutation_nil. rewrite <- E. apply Permutation_sym, check_doc_permutation.
-  Qed.
+    Lemma last_directive_perm n : last_directive doc n = last_directive doc' n.
+    Proof.
+      rewrite !last_directive_find. apply find_unique_perm.
+      - eapply Permutation_trans; [apply Permutation_sym, Permutation_rev|].
+        eapply Permutation_trans; [apply ddefs_perm|apply Permutation_rev].
+      - eapply Permutation_NoDup; [apply Permutation_map, Permutation_rev|exact HndD].
+    Qed.
+  End UniqueDirectives.
 End Perm.
+
+(* ------------------------------------------------------------------------------------------- *)
+(** * the in-order walk with the seen directive names (451006c) *)
+
+(** does the walk report a directive defined twice?  (the [DuplicatedName] part of [check_defs], alone) *)
+Fixpoint user_dup (seen : list str) (defs : list tsdef) : bool :=
+  match defs with
+  | [] => false
+  | d :: r => (match dup_directive_errs seen d with [] => false | _ => true end) || user_dup (seen_after seen d) r
+  end.
+
+(** the directive definitions that are not positioned as built-in *)
+Definition udirs (doc : tsdoc) : list directivedef :=
+  flat_map (fun d => match d with TSDirective x => if pbuiltin (dd_pos x) then [] else [x] | _ => [] end) doc.
+
+Lemma user_dup_nonempty doc defs : forall seen, user_dup seen defs = true -> check_defs doc seen defs <> [].
+Proof.
+  induction defs as [|d r IH]; intros seen H; cbn [user_dup] in H; [discriminate|]. cbn [check_defs].
+  destruct (dup_directive_errs seen d) as [|e es]; cbn [orb] in H.
+  - cbn [app]. intros E. apply app_eq_nil in E. destruct E as [_ E]. now apply (IH _ H).
+  - cbn [app]. discriminate.
+Qed.
+
+Lemma user_dup_flat doc defs : forall seen, user_dup seen defs = false -> check_defs doc seen defs = flat_map (check_def doc) defs.
+Proof.
+  induction defs as [|d r IH]; intros seen H; [reflexivity|]. cbn [user_dup] in H. cbn [check_defs flat_map].
+  destruct (dup_directive_errs seen d) as [|e es]; cbn [orb] in H; [|discriminate].
+  cbn [app]. now rewrite (IH _ H).
+Qed.
+
+Lemma mem_in x l : mem x l = true <-> In x l.
+Proof. unfold mem. apply P.existsb_str_in. Qed.
+
+(** no duplicate is reported iff the non-built-in directive names are distinct (and new w.r.t. [seen]) *)
+Lemma user_dup_false_iff defs : forall seen,
+  user_dup seen defs = false <->
+  NoDup (map dname (udirs defs)) /\ (forall x, In x (map dname (udirs defs)) -> ~ In x seen).
+Proof.
+  induction defs as [|d r IH]; intros seen; cbn [user_dup].
+  - split; [intros _; split; [constructor|intros x []]|reflexivity].
+  - destruct d as [sd|t|dd|se|te]; cbn [dup_directive_errs seen_after orb];
+      try (change (udirs (_ :: r)) with (udirs r); apply IH).
+    change (udirs (TSDirective dd :: r)) with ((if pbuiltin (dd_pos dd) then [] else [dd]) ++ udirs r).
+    destruct (pbuiltin (dd_pos dd)); cbn [app orb]; [apply IH|].
+    destruct (mem (dname dd) seen) eqn:Em; cbn [orb map].
+    + split; [discriminate|]. intros [_ H]. exfalso. apply (H (dname dd)); [now left|now apply mem_in].
+    + rewrite IH. assert (Hn : ~ In (dname dd) seen) by (intros Hin; apply mem_in in Hin; congruence).
+      split.
+      * intros [Hnd Hd]. split.
+        -- constructor; [|exact Hnd]. intros Hin. apply (Hd _ Hin). now left.
+        -- intros x [<-|Hin]; [exact Hn|]. intros Hs. apply (Hd x Hin). now right.
+      * intros [Hnd Hd]. inversion Hnd as [|? ? Hni Hnd']; subst. split; [exact Hnd'|].
+        intros x Hin [<-|Hs]; [contradiction|]. apply (Hd x); [now right|exact Hs].
+Qed.
+
+Lemma udirs_perm doc doc' : Permutation doc doc' -> Permutation (udirs doc) (udirs doc').
+Proof. intros H. unfold udirs. now apply Permutation_flat_map. Qed.
+
+Lemma user_dup_perm doc doc' : Permutation doc doc' -> user_dup [] doc = user_dup [] doc'.
+Proof.
+  intros Hp.
+  assert (G : forall a b, Permutation a b -> user_dup [] a = false -> user_dup [] b = false).
+  { intros a b Hab H. apply user_dup_false_iff in H. destruct H as [Hnd _]. apply user_dup_false_iff. split.
+    - eapply Permutation_NoDup; [apply Permutation_map, udirs_perm, Hab|exact Hnd].
+    - intros x _ []. }
+  destruct (user_dup [] doc) eqn:E1, (user_dup [] doc') eqn:E2; try reflexivity.
+  - now rewrite (G doc' doc (Permutation_sym Hp) E2) in E1.
+  - now rewrite (G doc doc' Hp E1) in E2.
+Qed.
+
+Lemma udirs_sub doc : forall x, In x (udirs doc) -> In x (ddefs doc).
+Proof.
+  induction doc as [|d r IH]; intros x; [intros []|]. destruct d as [sd|t|dd|se|te]; try apply IH.
+  change (udirs (TSDirective dd :: r)) with ((if pbuiltin (dd_pos dd) then [] else [dd]) ++ udirs r).
+  change (ddefs (TSDirective dd :: r)) with (dd :: ddefs r).
+  destruct (pbuiltin (dd_pos dd)); cbn [app]; [intros H; right; now apply IH|].
+  intros [<-|H]; [now left|right; now apply IH].
+Qed.
+
+(** a sub-list of a list without repetition (here: [udirs] within [ddefs]) has none either *)
+Lemma udirs_names_nodup doc : NoDup (map dname (ddefs doc)) -> NoDup (map dname (udirs doc)).
+Proof.
+  induction doc as [|d r IH]; intros H; [constructor|]. destruct d as [sd|t|dd|se|te]; try (apply IH; exact H).
+  change (udirs (TSDirective dd :: r)) with ((if pbuiltin (dd_pos dd) then [] else [dd]) ++ udirs r).
+  change (ddefs (TSDirective dd :: r)) with (dd :: ddefs r) in H. cbn [map] in H. inversion H as [|? ? Hn Hr]; subst.
+  destruct (pbuiltin (dd_pos dd)); cbn [app map]; [now apply IH|]. constructor; [|now apply IH].
+  intros Hin. apply Hn. apply in_map_iff in Hin. destruct Hin as (x & E & Hx). apply in_map_iff. exists x.
+  split; [exact E|now apply udirs_sub].
+Qed.
+
+(* ------------------------------------------------------------------------------------------- *)
+(** * general form: any permutation, unique type and directive names *)
+
+Lemma check_doc_permutation doc doc' :
+  Permutation doc doc' -> NoDup (map tname (tdefs doc)) -> NoDup (map dname (ddefs doc)) ->
+  Permutation (check_doc doc) (check_doc doc').
+Proof.
+  intros Hp HT HD.
+  assert (HD' : NoDup (map dname (ddefs doc')))
+    by (eapply Permutation_NoDup; [apply Permutation_map, ddefs_perm, Hp|exact HD]).
+  assert (U : user_dup [] doc = false)
+    by (apply user_dup_false_iff; split; [now apply udirs_names_nodup|intros x _ []]).
+  assert (U' : user_dup [] doc' = false) by (now rewrite <- (user_dup_perm doc doc' Hp)).
+  unfold check_doc. rewrite (user_dup_flat doc doc [] U), (user_dup_flat doc' doc' [] U').
+  rewrite (flat_map_ext (check_def doc') (check_def doc) (fun d => eq_sym
+    (check_def_eq doc doc' (first_type_perm doc doc' Hp HT) (last_type_perm doc doc' Hp HT)
+                  (first_directive_perm doc doc' Hp HD) (last_directive_perm doc doc' Hp HD)
+                  (Permutation_length Hp) d))).
+  now apply Permutation_flat_map.
+Qed.
+
+Lemma perm_nil_iff {A} (a b : list A) : Permutation a b -> (a = [] <-> b = []).
+Proof.
+  intros H. split; intros E.
+  - apply Permutation_nil. now rewrite <- E.
+  - apply Permutation_nil. rewrite <- E. now apply Permutation_sym.
+Qed.
 
 Lemma check_verdict_permutation doc doc' :
   Permutation doc doc' -> NoDup (map tname (tdefs doc)) -> NoDup (map dname (ddefs doc)) ->
   Permutation (check_doc doc) (check_doc doc') /\ (check_doc doc = [] <-> check_doc doc' = []).
-Proof. intros Hp H1 H2. split; [now apply check_doc_permutation|now apply check_doc_verdict_permutation]. Qed.
+Proof.
+  intros Hp H1 H2. pose proof (check_doc_permutation doc doc' Hp H1 H2) as Pm.
+  split; [exact Pm|now apply perm_nil_iff].
+Qed.
 
 (** the multiset of diagnostic kinds, as the harness compares it *)
 Lemma check_doc_kinds_permutation {K : Type} (kind : cerr -> K) doc doc' :
@@ -381,38 +492,151 @@ Lemma check_doc_kinds_permutation {K : Type} (kind : cerr -> K) doc doc' :
 Proof. intros H1 H2 H3. apply Permutation_map. now apply check_doc_permutation. Qed.
 
 (* ------------------------------------------------------------------------------------------- *)
-(** * the guard on directive names is necessary: a directive defined twice makes the verdict order-dependent *)
+(** * source form: user definitions permuted, built-ins appended unchanged — no guard on directive names *)
 
+Lemma first_directive_app a b n :
+  first_directive (a ++ b) n = match first_directive a n with Some d => Some d | None => first_directive b n end.
+Proof.
+  induction a as [|d r IH]; [reflexivity|]. destruct d; cbn [app first_directive]; try exact IH.
+  destruct (str_eqb (dname d) n); [reflexivity|exact IH].
+Qed.
+
+Lemma last_directive_app a b n :
+  last_directive (a ++ b) n = match last_directive b n with Some d => Some d | None => last_directive a n end.
+Proof.
+  induction a as [|d r IH]; cbn [app last_directive].
+  - destruct (last_directive b n); reflexivity.
+  - rewrite IH. destruct (last_directive b n); [reflexivity|]. reflexivity.
+Qed.
+
+Lemma ddefs_app a b : ddefs (a ++ b) = ddefs a ++ ddefs b.
+Proof. unfold ddefs. apply flat_map_app. Qed.
+Lemma udirs_app a b : udirs (a ++ b) = udirs a ++ udirs b.
+Proof. unfold udirs. apply flat_map_app. Qed.
+
+Definition user_positioned (doc : tsdoc) : Prop := forall x, In x (ddefs doc) -> pbuiltin (dd_pos x) = false.
+
+Lemma udirs_user doc : user_positioned doc -> udirs doc = ddefs doc.
+Proof.
+  induction doc as [|d r IH]; intros H; [reflexivity|]. destruct d as [sd|t|dd|se|te]; try (apply IH; exact H).
+  change (udirs (TSDirective dd :: r)) with ((if pbuiltin (dd_pos dd) then [] else [dd]) ++ udirs r).
+  change (ddefs (TSDirective dd :: r)) with (dd :: ddefs r).
+  rewrite (H dd (or_introl eq_refl)). cbn [app]. f_equal. apply IH. intros x Hx. apply H. now right.
+Qed.
+
+Section Source.
+  Variables user user' builtins : tsdoc.
+  Hypothesis Hperm : Permutation user user'.
+  Hypothesis HndT : NoDup (map tname (tdefs (user ++ builtins))).
+  (** parsed definitions are never positioned as built-in *)
+  Hypothesis Huser : user_positioned user.
+
+  Let Hperm_all : Permutation (user ++ builtins) (user' ++ builtins) := Permutation_app_tail builtins Hperm.
+
+  Lemma source_directive_lookups :
+    NoDup (map dname (ddefs user)) ->
+    (forall n, first_directive (user ++ builtins) n = first_directive (user' ++ builtins) n)
+    /\ (forall n, last_directive (user ++ builtins) n = last_directive (user' ++ builtins) n).
+  Proof.
+    intros Hnd. split; intros n.
+    - rewrite !first_directive_app. now rewrite (first_directive_perm user user' Hperm Hnd n).
+    - rewrite !last_directive_app. now rewrite (last_directive_perm user user' Hperm Hnd n).
+  Qed.
+
+  (** with distinct user directive names: the same diagnostics up to their order (a user directive may even
+      redefine a built-in one: it precedes it in both arrangements) *)
+  Lemma check_doc_source_permutation :
+    user_dup [] (user ++ builtins) = false ->
+    Permutation (check_doc (user ++ builtins)) (check_doc (user' ++ builtins)).
+  Proof.
+    intros U. pose proof U as U0.
+    assert (U' : user_dup [] (user' ++ builtins) = false) by (now rewrite <- (user_dup_perm _ _ Hperm_all)).
+    apply user_dup_false_iff in U0. destruct U0 as [Hnd _].
+    assert (HndU : NoDup (map dname (ddefs user))).
+    { rewrite udirs_app, map_app in Hnd. rewrite <- (udirs_user user Huser).
+      clear - Hnd. induction (map dname (udirs user)) as [|x l IH]; [constructor|].
+      cbn [app] in Hnd. inversion Hnd as [|? ? Hn Hr]; subst. constructor; [|now apply IH].
+      intros Hin. apply Hn. apply in_or_app. now left. }
+    destruct (source_directive_lookups HndU) as [HF HL].
+    unfold check_doc. rewrite (user_dup_flat _ _ [] U), (user_dup_flat _ _ [] U').
+    rewrite (flat_map_ext (check_def (user' ++ builtins)) (check_def (user ++ builtins)) (fun d => eq_sym
+      (check_def_eq _ _ (first_type_perm _ _ Hperm_all HndT) (last_type_perm _ _ Hperm_all HndT) HF HL
+                    (Permutation_length Hperm_all) d))).
+    now apply Permutation_flat_map.
+  Qed.
+
+  (** verdict(pi(P)) = verdict(P) for the schema check, no guard on directive names: either some user
+      directive is defined twice — rejected in both arrangements — or the diagnostics are a permutation *)
+  Lemma check_verdict_source_permutation :
+    check_doc (user ++ builtins) = [] <-> check_doc (user' ++ builtins) = [].
+  Proof.
+    destruct (user_dup [] (user ++ builtins)) eqn:U.
+    - assert (U' : user_dup [] (user' ++ builtins) = true) by (now rewrite <- (user_dup_perm _ _ Hperm_all)).
+      pose proof (user_dup_nonempty (user ++ builtins) _ [] U) as N.
+      pose proof (user_dup_nonempty (user' ++ builtins) _ [] U') as N'.
+      unfold check_doc. split; intros E; contradiction.
+    - apply perm_nil_iff. now apply check_doc_source_permutation.
+  Qed.
+End Source.
+
+(* ------------------------------------------------------------------------------------------- *)
+(** * examples and the remaining (model-only) counter-example *)
+
+Definition upos (l : N) : pos := mkPos l 0 0 false.
 Definition rx_id (x : str) : ident := mkId x pos0.
 Definition rx_kw : keyword := mkKw (s "k") pos0.
 Definition rx_scalar (n : str) : tsdef := TSType (TDScalar None pos0 (rx_id n) [] rx_kw).
 Definition rx_arg (n t : str) : inputvaldef := mkInputVal None pos0 (rx_id n) (TNamed (rx_id t)) None [].
-(** directive @d(x: Int) on FIELD_DEFINITION      and      directive @d(y: String) on OBJECT *)
-Definition rx_d1 : tsdef :=
-  TSDirective (mkDirDef None pos0 (rx_id (s "d")) (Some [rx_arg (s "x") (s "Int")]) None [rx_id (s "FIELD_DEFINITION")] rx_kw).
-Definition rx_d2 : tsdef :=
-  TSDirective (mkDirDef None pos0 (rx_id (s "d")) (Some [rx_arg (s "y") (s "String")]) None [rx_id (s "OBJECT")] rx_kw).
+(** directive @d(x: Int) on FIELD_DEFINITION      and      directive @d(y: String) on OBJECT, at position [p] *)
+Definition rx_d1 (p : pos) : tsdef :=
+  TSDirective (mkDirDef None p (rx_id (s "d")) (Some [rx_arg (s "x") (s "Int")]) None [rx_id (s "FIELD_DEFINITION")] rx_kw).
+Definition rx_d2 (p : pos) : tsdef :=
+  TSDirective (mkDirDef None p (rx_id (s "d")) (Some [rx_arg (s "y") (s "String")]) None [rx_id (s "OBJECT")] rx_kw).
 (** type Query { a: Int @d(x: 1) } *)
 Definition rx_query : tsdef :=
-  TSType (TDObject None pos0 (rx_id (s "Query")) [] []
+  TSType (TDObject None (upos 1) (rx_id (s "Query")) [] []
             [mkFieldDef None (rx_id (s "a")) None (TNamed (rx_id (s "Int")))
-               [mkDir pos0 (rx_id (s "d")) (Some (mkArgs pos0 [(rx_id (s "x"), VInt pos0 (s "1"))]))]] rx_kw).
-Definition rx_doc : tsdoc := [rx_scalar (s "Int"); rx_scalar (s "String"); rx_query; rx_d1; rx_d2].
-Definition rx_doc' : tsdoc := [rx_scalar (s "Int"); rx_scalar (s "String"); rx_query; rx_d2; rx_d1].
+               [mkDir (upos 1) (rx_id (s "d")) (Some (mkArgs (upos 1) [(rx_id (s "x"), VInt (upos 1) (s "1"))]))]] rx_kw).
+Definition rx_builtins : tsdoc := [rx_scalar (s "Int"); rx_scalar (s "String")].
+
+(** the former finding, now repaired (451006c): a directive the user defines twice is rejected in both orders *)
+Example duplicate_directive_rejected_in_both_orders :
+  check_doc ([rx_query; rx_d1 (upos 2); rx_d2 (upos 3)] ++ rx_builtins) <> []
+  /\ check_doc ([rx_query; rx_d2 (upos 3); rx_d1 (upos 2)] ++ rx_builtins) <> []
+  /\ user_dup [] ([rx_query; rx_d1 (upos 2); rx_d2 (upos 3)] ++ rx_builtins) = true.
+Proof. split; [vm_compute; discriminate|]. split; [vm_compute; discriminate|vm_compute; reflexivity]. Qed.
+
+(** a user directive that redefines a built-in one: same verdict whatever the order of the user definitions *)
+Example source_permutation_nontrivial :
+  let user := [rx_query; rx_d1 (upos 2)] in
+  let b := rx_builtins ++ [rx_d2 pos0] in
+  user_positioned user /\ NoDup (map tname (tdefs (user ++ b))) /\ user_dup [] (user ++ b) = false
+  /\ check_doc (user ++ b) = [] /\ check_doc (rev user ++ b) = [].
+Proof.
+  cbv zeta. split.
+  - intros x Hx. vm_compute in Hx. destruct Hx as [<-|[]]. reflexivity.
+  - split; [vm_compute; repeat constructor; intros Hc; cbv in Hc; intuition discriminate|].
+    split; [vm_compute; reflexivity|]. split; vm_compute; reflexivity.
+Qed.
+
+(** model only: a permutation that moves a BUILT-IN-positioned definition across a user definition of the same name
+    changes the first/last lookups and with them the verdict.  nitrogql appends the built-ins after the user document,
+    so no reordering of source definitions does this. *)
+Definition rx_doc : tsdoc := rx_builtins ++ [rx_query; rx_d1 (upos 2); rx_d2 pos0].
+Definition rx_doc' : tsdoc := rx_builtins ++ [rx_query; rx_d2 pos0; rx_d1 (upos 2)].
 
 Lemma check_doc_permutation_refuted :
   exists doc doc', Permutation doc doc' /\ NoDup (map tname (tdefs doc))
                    /\ check_doc doc = [] /\ check_doc doc' <> [].
 Proof.
   exists rx_doc, rx_doc'. split; [|split; [|split]].
-  - unfold rx_doc, rx_doc'. do 3 apply perm_skip. apply perm_swap.
+  - unfold rx_doc, rx_doc'. apply Permutation_app_head. apply perm_skip. apply perm_swap.
   - vm_compute. repeat constructor; intros Hc; cbv in Hc; intuition discriminate.
   - vm_compute. reflexivity.
   - vm_compute. discriminate.
 Qed.
 
-(** non-vacuity of the guarded theorem: a document with distinct names, a failing check, and a permutation of it *)
-Definition ok_doc : tsdoc := [rx_scalar (s "Int"); rx_scalar (s "String"); rx_query; rx_d2].
+Definition ok_doc : tsdoc := rx_builtins ++ [rx_query; rx_d2 (upos 2)].
 Example check_doc_permutation_nontrivial :
   NoDup (map tname (tdefs ok_doc)) /\ NoDup (map dname (ddefs ok_doc)) /\ Permutation ok_doc (rev ok_doc)
   /\ check_doc ok_doc <> [].
@@ -423,13 +647,13 @@ Proof.
 Qed.
 
 (* ------------------------------------------------------------------------------------------- *)
-(** * full statement, computable guard, and why the full statement fails on the current code *)
+(** * full statements *)
 
-(** the property as stated: ANY two arrangements of the same definitions get the same schema-check verdict *)
+(** the property for arbitrary permutations of arbitrary documents (built-in-positioned definitions may move) *)
 Definition check_verdict_permutation_full : Prop :=
   forall doc doc', Permutation doc doc' -> (check_doc doc = [] <-> check_doc doc' = []).
 
-(** computable guard: type names and directive names are unique *)
+(** computable guard of the general form: type names and directive names are unique *)
 Definition unique_names (doc : tsdoc) : bool :=
   Ts.TsDen.nodup_keys (map tname (tdefs doc)) && Ts.TsDen.nodup_keys (map dname (ddefs doc)).
 
@@ -441,12 +665,22 @@ Proof.
   apply check_verdict_permutation; [exact Hp|now apply D.nodup_keys_NoDup|now apply D.nodup_keys_NoDup].
 Qed.
 
-(** nitrogql does not reject a directive defined twice, so the full statement is false of the current code *)
+(** still false of the model for arbitrary permutations (built-in redefinition moved); see the header *)
 Lemma check_verdict_permutation_full_refuted : ~ check_verdict_permutation_full.
 Proof.
   intros F. destruct check_doc_permutation_refuted as (doc & doc' & Hp & _ & E & N).
   apply N. now apply (F doc doc' Hp).
 Qed.
+
+(** the property as nitrogql can meet it: reorderings of the user's definitions, built-ins appended — holds with
+    unique type names only *)
+Definition check_verdict_source_permutation_full : Prop :=
+  forall user user' builtins,
+    Permutation user user' -> NoDup (map tname (tdefs (user ++ builtins))) -> user_positioned user ->
+    (check_doc (user ++ builtins) = [] <-> check_doc (user' ++ builtins) = []).
+
+Lemma check_verdict_source_permutation_full_holds : check_verdict_source_permutation_full.
+Proof. intros u u' b Hp Hn Hu. now apply check_verdict_source_permutation. Qed.
 
 Example unique_names_nontrivial : unique_names ok_doc = true /\ unique_names rx_doc = false.
 Proof. split; vm_compute; reflexivity. Qed.
